@@ -144,6 +144,7 @@ func init() {
 			{Name: "long", TShards: 2, Run: c05Long},
 			{Name: "sizes", TShards: 6, Run: c05Sizes},
 			{Name: "distinct", TShards: 4, Run: c05Distinct},
+			{Name: "prefixes", Run: prefixUnit("newick", false, 0)},
 		},
 	})
 }
